@@ -704,6 +704,8 @@ pub fn built_cases(posix_alphabet: &[String]) -> Vec<(String, Vec<u8>)> {
         ("all-NUL", vec![0u8; 12]),
         ("no-NUL", b"LMTxESTxEDTx".to_vec()),
         ("multibyte", "LMT\0É T\0EDT\0".as_bytes().to_vec()),
+        ("multibyte-3", "LMT\0€T\0EDT\0".as_bytes().to_vec()),
+        ("multibyte-4", "LMT\0\u{1F552}\0EDT\0".as_bytes().to_vec()),
         ("len-1", vec![0u8]),
         ("len-255", {
             let mut c = b"LMT\0EST\0EDT\0".to_vec();
@@ -726,10 +728,20 @@ pub fn built_cases(posix_alphabet: &[String]) -> Vec<(String, Vec<u8>)> {
         let mut t = base.clone();
         t.chars = chars;
         both(&mut out, format!("chars {}", name), t.clone());
-        for i in [0u8, 4, 250, 254, 255] {
-            let mut t2 = t.clone();
-            t2.types[1].2 = i;
-            out.push((format!("chars {} types[1].desig={}", name, i), nofoot(t2)));
+        // every byte position of the (start of the) table as a designation
+        // index - the table only has to be UTF-8, so an index may point into
+        // the middle of a multi-byte character - plus the far end
+        let mut positions: Vec<u8> = (0..=t.chars.len().min(24) as u8).collect();
+        positions.extend([250u8, 254, 255]);
+        for i in positions {
+            for k in [1usize, 2] {
+                let mut t2 = t.clone();
+                t2.types[k].2 = i;
+                out.push((format!("chars {} types[{}].desig={}", name, k, i), nofoot(t2.clone())));
+                if k == 1 && i <= 12 {
+                    out.push((format!("chars {} types[{}].desig={} (with footer)", name, k, i), t2));
+                }
+            }
         }
     }
     // 5. isdst
